@@ -1,19 +1,22 @@
 /-
   C20 (part b) — completeness of the Ehrlich walk `_ehrlich_algorithm`.
 
-  The general claim (every weight-k string of length n appears exactly once, for all n, k)
-  is kept visible as `EhrlichComplete`; it is NOT proved.  What is established here is a
-  kernel-evaluated TEST of the executable model for all `0 < k < n ≤ 9` (the model is compared
-  verbatim with the real `_ehrlich_algorithm` for the same range on every check run), combined
-  with the unbounded run theorem `T20_ehrlich_run`.
+  The general claim (every weight-k string of length n appears exactly once, for all n, k) is
+  `EhrlichComplete`; it is PROVED below (`EhrlichComplete_proved`, `T20_ehrlich_complete`,
+  `T20_ehrlich_all_strings`) from the recursive structure of the walk
+  (`T20_ehrlich_subwalk`, proofs in QV/Proofs/Ehrlich.lean).  The earlier kernel-evaluated TEST
+  of the executable model for all `0 < k < n ≤ 9` is kept (the model is compared verbatim with
+  the real `_ehrlich_algorithm` on every check run).
 -/
-import QV.Proofs.Encodings
+import Mathlib.Data.Nat.Choose.Basic
+import QV.Proofs.Ehrlich
 namespace QV.Props.C20
 open QV QV.Enc
 
-/-- full statement (not proved): for every `0 < k < n` the walk from `1^k 0^(n-k)` is regular,
-has `C(n,k)` pairwise different entries. Together with `T20_ehrlich_run` (all entries have
-weight `k`, length `n`) this says every weight-`k` string occurs exactly once. -/
+/-- full statement: for every `0 < k < n` the walk from `1^k 0^(n-k)` is regular and has
+`C(n,k)` pairwise different entries. Together with `T20_ehrlich_run` (all entries have
+weight `k`, length `n`) this says every weight-`k` string occurs exactly once.
+Proved: `EhrlichComplete_proved`. -/
 def EhrlichComplete : Prop := ∀ n k, 0 < k → k < n → ehrlichOK n k = true
 
 /-- TEST (kernel evaluation, bounded): `EhrlichComplete` for all `0 < k < n ≤ 9`. -/
@@ -51,5 +54,131 @@ theorem T20_ehrlich_gray_le9_partial (n k : Nat) (hk : 0 < k) (hkn : k < n) (hn 
   · obtain ⟨st, hst, rfl⟩ := List.mem_map.mp hs
     obtain ⟨a, b⟩ := hrun.2 st hst
     exact ⟨a.trans hw, b.trans hl⟩
+
+/-! ### completeness for every `n` and `k` -/
+
+/-- **recursive structure of the walk (the invariant of the marker array).**  `Fresh i bs ms`:
+the markers at positions `≥ i` are exactly the positions from which `bs` is not constant.
+`SE σ ρ` lists the suffix shapes that occur with the shape the sub-walk ends on:
+`1^w 0^z ↦ 0 1^w 0^(z-1)` (w odd) or `0^z 1^w` (w even); `0 1^w 0^z ↦ 1^w 0^(z+1)` (w even or
+z = 0); `0^z 1^w ↦ 1^w 0^z` (w odd or z ≤ 1).  For every prefix `pre` that stays fixed and every
+marker list that is fresh above it, the next `C(|σ|, weight σ) - 1` steps (i) are all in a
+designed situation, (ii) produce `pre ++ τ` for pairwise different `τ`, (iii) covering, together
+with `σ`, every string of the length and weight of `σ`, (iv) end on `pre ++ ρ`, and (v) use up
+exactly the markers at the positions of the suffix, leaving the lower ones untouched. -/
+theorem T20_ehrlich_subwalk (pre σ ρ : List Bool) (ms : List Nat) (hshape : SE σ ρ)
+    (hfresh : Fresh pre.length (pre ++ σ) ms) :
+    ∃ T : List (List Bool),
+      (ehrlichLoop (choose σ.length (weight σ) - 1) (pre ++ σ) ms).map (·.bits) = T.map (pre ++ ·) ∧
+      regularRun (choose σ.length (weight σ) - 1) (pre ++ σ) ms = true ∧
+      (σ :: T).Nodup ∧
+      (∀ τ : List Bool, τ.length = σ.length → weight τ = weight σ → τ ∈ σ :: T) ∧
+      (ehrState (choose σ.length (weight σ) - 1) (pre ++ σ) ms).1 = pre ++ ρ ∧
+      ∀ j, j ∈ (ehrState (choose σ.length (weight σ) - 1) (pre ++ σ) ms).2 ↔ (j ∈ ms ∧ j < pre.length) :=
+  gen_main _ σ ρ rfl hshape pre ms hfresh
+
+/-- non-vacuity: the initial state of `_ehrlich_algorithm` satisfies the hypotheses (empty
+prefix, markers `_get_markers(initial_string, last_run=False)`, shape `1^k 0^(n-k)`). -/
+example (n k : Nat) : SE (defaultInit n k) (endA k (n - k)) ∧
+    Fresh ([] : List Bool).length ([] ++ defaultInit n k) (getMarkers (defaultInit n k) false) :=
+  ⟨SE.A k (n - k), fresh_initial _⟩
+
+/-- `EhrlichComplete` holds: for every `n` and `0 < k < n` (indeed every `k ≤ n`). -/
+theorem EhrlichComplete_proved : EhrlichComplete :=
+  fun n k _ hkn => ehrlichOK_all n k (by omega)
+
+/-- **Completeness of the Ehrlich walk, every `n`, every `k ≤ n`** (the statement of
+`T20_ehrlich_gray_le9_partial` without the bound): the strings returned by
+`_ehrlich_algorithm(1^k 0^(n-k))` are pairwise different, there are `C(n,k)` of them, each has
+weight `k` and length `n`, consecutive ones differ by moving exactly one 1. -/
+theorem T20_ehrlich_complete (n k : Nat) (hkn : k ≤ n) :
+    (ehrlichStrings (defaultInit n k)).Nodup ∧
+    (ehrlichStrings (defaultInit n k)).length = choose n k ∧
+    ChainFrom OneMove (defaultInit n k) ((ehrlich (defaultInit n k)).map (·.bits)) ∧
+    ∀ s ∈ ehrlichStrings (defaultInit n k), weight s = k ∧ s.length = n := by
+  obtain ⟨hreg, hnd, hlen, _, _, _⟩ := ehrlich_walk n k hkn
+  have hw := weight_defaultInit n k
+  have hl := length_defaultInit (n := n) (k := k) hkn
+  have hrun := ehrlichLoop_chain (choose n k - 1) _ _ hreg
+  have he : ehrlich (defaultInit n k)
+      = ehrlichLoop (choose n k - 1) (defaultInit n k) (getMarkers (defaultInit n k) false) := by
+    unfold ehrlich; rw [hl, hw]
+  refine ⟨hnd, hlen, by rw [he]; exact hrun.1, ?_⟩
+  intro s hs
+  unfold ehrlichStrings at hs
+  rcases List.mem_cons.mp hs with rfl | hs
+  · exact ⟨hw, hl⟩
+  · obtain ⟨st, hst, rfl⟩ := List.mem_map.mp hs
+    rw [he] at hst
+    obtain ⟨a, b⟩ := hrun.2 st hst
+    exact ⟨a.trans hw, b.trans hl⟩
+
+/-- **every string of length `n` and weight `k` is visited exactly once.** -/
+theorem T20_ehrlich_all_strings (n k : Nat) (hkn : k ≤ n) (τ : List Bool)
+    (hlen : τ.length = n) (hw : weight τ = k) :
+    (ehrlichStrings (defaultInit n k)).count τ = 1 := by
+  obtain ⟨_, hnd, _, hall, _, _⟩ := ehrlich_walk n k hkn
+  exact List.count_eq_one_of_mem hnd (hall τ hlen hw)
+
+/-- where the walk ends, and that it has then used up every marker (python's `markers` set is
+empty exactly after `C(n,k) - 1` steps): the last string is `0 1^k 0^(n-k-1)` for odd `k`,
+`0^(n-k) 1^k` for even `k` (`k` and `n - k` positive). -/
+theorem T20_ehrlich_last (n k : Nat) (hkn : k ≤ n) :
+    (ehrState (choose n k - 1) (defaultInit n k) (getMarkers (defaultInit n k) false))
+      = (endA k (n - k), []) := by
+  obtain ⟨_, _, _, _, h1, h2⟩ := ehrlich_walk n k hkn
+  exact Prod.ext h1 h2
+
+/-- **completeness from every admissible initial string** (`SE σ ρ`: `1^w 0^z`; `0 1^w 0^z` with
+`w` even or `z = 0`; `0^z 1^w` with `w` odd or `z ≤ 1`), e.g. the strings `0^(n-w) 1^w`, `w` odd,
+that `_binary_encoder_hyperspherical` passes on: all steps regular, strings pairwise different,
+`C(n,w)` of them, every string of that length and weight visited, the walk ends on `ρ` with an
+empty marker set. -/
+theorem T20_ehrlich_complete_shapes (σ ρ : List Bool) (hse : SE σ ρ) :
+    regularRun (choose σ.length (weight σ) - 1) σ (getMarkers σ false) = true ∧
+    (ehrlichStrings σ).Nodup ∧
+    (ehrlichStrings σ).length = choose σ.length (weight σ) ∧
+    (∀ τ : List Bool, τ.length = σ.length → weight τ = weight σ → τ ∈ ehrlichStrings σ) ∧
+    ehrState (choose σ.length (weight σ) - 1) σ (getMarkers σ false) = (ρ, []) :=
+  ehrlich_walk_shape σ ρ hse
+
+/-- non-vacuity: `00111` (positions 0,1 empty) is admissible and its walk ends on `11100`. -/
+example : SE [false, false, true, true, true] [true, true, true, false, false] :=
+  SE.C 2 3 (Or.inl rfl)
+
+/-- the executable table of admissible initial strings (`seValid`, `seStart`, `seEnd`; compared
+with the real `_ehrlich_algorithm` on every run) is the relation `SE` of the theorems. -/
+theorem T20_ehrlich_shapes_table (kind w z : Nat) (h : seValid kind w z = true) :
+    SE (seStart kind w z) (seEnd kind w z) := by
+  match kind, h with
+  | 0, _ => exact SE.A w z
+  | 1, h =>
+    simp only [seValid, Bool.or_eq_true, beq_iff_eq] at h
+    exact SE.B w z h
+  | k + 2, h =>
+    simp only [seValid, Bool.or_eq_true, beq_iff_eq, decide_eq_true_eq] at h
+    exact SE.C z w h
+
+/-- the last string of the walk from an admissible initial string (`ehrLast`, the string
+`_intermediate_gate` reads off `bitstrings[-1]`) is the tabulated one. -/
+theorem T20_ehrlich_last_shapes (kind w z : Nat) (h : seValid kind w z = true) :
+    ehrLast (seStart kind w z) = seEnd kind w z := by
+  have := (T20_ehrlich_complete_shapes _ _ (T20_ehrlich_shapes_table kind w z h)).2.2.2.2
+  unfold ehrLast
+  rw [this]
+
+example : seValid 2 3 2 = true := by decide
+
+/-- the model's binomial coefficient (python: `int(binom(n, k))`) is the binomial coefficient. -/
+theorem T20_choose_eq (n k : Nat) : choose n k = Nat.choose n k := by
+  induction n generalizing k with
+  | zero => cases k <;> rfl
+  | succ n ih =>
+    cases k with
+    | zero => simp [choose]
+    | succ k => simp only [choose]; rw [ih, ih, Nat.choose_succ_succ]
+
+example : endA 3 3 = [false, true, true, true, false, false] := by decide
+example : endA 2 3 = [false, false, false, true, true] := by decide
 
 end QV.Props.C20
